@@ -205,6 +205,8 @@ class Emitter:
         if s.startswith("volatile "):
             s = s[9:].strip()
         name = strip_ns(s)
+        for al, tgt in self.ix.ns_alias.items():
+            name = re.sub(r"(?<![\w:])%s::" % re.escape(al), tgt + "::", name)
         if name in SCALARS:
             return CT(SCALARS[name], const=const, cxx=cxx)
         if name in self.cfg.type_map:
@@ -1181,6 +1183,12 @@ class Emitter:
     def derived_to_base(self, n, inner):
         if self._strip(inner).get("kind") == "CXXNewExpr":
             return self.expr(inner)     # pointer handed to an owning handle shim
+        try:
+            it = self.ctype(inner["type"])
+            if it.base in ("xc_handle", "xc_opaque"):
+                return self.expr(inner)   # opaque shim types have no base sub-object
+        except ExtractionError:
+            pass
         raise ExtractionError("derived-to-base conversion not supported")
 
     def explicit_cast(self, n):
@@ -1275,6 +1283,11 @@ class Emitter:
         rid = r["id"]
         d = self.ix.by_id.get(rid)
         name = r.get("name")
+        if d is None and name not in self.cfg.ext:
+            d = self.ix.lookup_by_name_sig(name, r.get("type", {}).get("qualType"))
+            if d is not None:
+                rid = d["id"]
+                r = dict(r, id=rid)
         # function_ref specialisation: lambda arguments
         if d is not None:
             q = self.ix.qual.get(rid, name)
